@@ -7,9 +7,75 @@ import win_table
 NAMES = ["group_by", "group_by_until", "partition"]
 
 
+def self_duration_scenarios(chk):
+    """oracle-only: group_by_until whose duration is derived from the group ITSELF (g.skip(m), or a sentinel
+    element), so that a group's own element closes it.  Every element -- the closing one included -- must reach
+    exactly the group of its key, in arrival order; the next element of that key opens a new group."""
+    import reactivex as rx
+    from reactivex import operators as ops
+    from reactivex.subject import Subject
+    n = 80 if chk.tier == "quick" else 1000
+    nontrivial = set()
+    for _ in range(n):
+        mode = chk.rng.choice(["skip", "sentinel"])
+        m = chk.rng.choice([0, 1, 2])
+        nk = chk.rng.choice([1, 2, 3])
+        xs = [(chk.rng.randrange(nk), chk.rng.choice([0, None, 1, 2, "end", "end"])) for _ in
+              range(chk.rng.choice([2, 4, 6, 9]))]
+        if mode == "skip":
+            dur = lambda g: g.pipe(ops.skip(m))
+            closes = lambda count, v: count == m + 1
+        else:
+            dur = lambda g: g.pipe(ops.filter(lambda kv: kv[1] == "end"))
+            closes = lambda count, v: v == "end"
+        groups = []            # [key, [elements], terminal]
+        src = Subject()
+        outer_term = []
+
+        def on_group(g):
+            rec = [g.key, [], None]
+            groups.append(rec)
+            g.subscribe(lambda kv: rec[1].append(kv), lambda e: rec.__setitem__(2, "E"),
+                        lambda: rec.__setitem__(2, "C"))
+        src.pipe(ops.group_by_until(lambda kv: kv[0], None, dur)).subscribe(
+            on_group, lambda e: outer_term.append("E"), lambda: outer_term.append("C"))
+        for kv in xs:
+            src.on_next(kv)
+        src.on_completed()
+        chk.cov["evaluations"] += 1
+        # reference
+        exp, open_ = [], {}
+        for kv in xs:
+            k = kv[0]
+            if k not in open_:
+                rec = [k, [], None]
+                exp.append(rec)
+                open_[k] = rec
+            rec = open_[k]
+            rec[1].append(kv)
+            if closes(len(rec[1]), kv[1]):
+                rec[2] = "C"
+                del open_[k]
+        for rec in open_.values():
+            rec[2] = "C"
+        if groups != exp or outer_term != ["C"]:
+            chk.violation(f"C19|self-duration|{mode}|m={m}|{xs}"[:120],
+                          {"operator": f"group_by_until(key, None, duration derived from the group: {mode}, m={m})",
+                           "source (key, value)": xs, "groups got [key, elements, terminal]": groups,
+                           "expected": exp, "outer terminal": outer_term,
+                           "oracle": "every element reaches exactly the group of its key, in arrival order"},
+                          size=len(xs))
+        elif any(len(r[1]) >= 2 for r in exp) and len(exp) >= 2:
+            nontrivial.add(repr((mode, m, xs)))
+    return nontrivial
+
+
 def run(chk):
     chk.build_and_prove()
     win_table.run_ops(chk, "C19", NAMES, ncase=(90 if chk.tier == "quick" else 1500))
+    nt = self_duration_scenarios(chk)
+    chk.cov["distinct_nontrivial"] = chk.cov.get("distinct_nontrivial", 0) + len(nt)
+    chk.cov["self_duration_scenarios_nontrivial"] = len(nt)
     chk.cov["rule"] = ("per operator: seeded key tables (few keys / many keys / falsy keys None 0 False '' () 0.0; 5% "
                        "raising), element mappers, duration mappers (12% raising) x seeded timelines (falsy elements, "
                        "duration observables firing at arbitrary times incl. the same instant as elements, errors while "
